@@ -80,6 +80,12 @@ def handle (ws : List String) : String :=
       | ["strip1", i] => match i.toNat? with
         | some i => encToks (stripAt ts i)
         | none => "bad-op"
+      | ["strips", ks] => match (ks.splitOn ",").mapM String.toNat? with
+        | some ks => encToks (stripKinds ks ts)
+        | none => "bad-op"
+      | ["strip1s", is] => match (is.splitOn ",").mapM String.toNat? with
+        | some is => encToks (stripAts is ts)
+        | none => "bad-op"
       | _ => "bad-op"
   | [hd, tks, el] =>
     match tks.mapM decTok, el.mapM decTok with
